@@ -91,6 +91,44 @@ Proof.
 Qed.
 Print Assumptions C39_sent_by_own_desc.
 
+(* ---- several Clusters / Sessions in one process, statements of every PREPARED shape (with / without partition-key indexes,
+   protocol v3 included), registrations and RE-registrations at any time: after ANY history, a round trip through ANY session
+   returns the rows -- bind and decode both consult the policy object of that session's own cluster. *)
+Theorem C39_transparent_sessions : forall (V T : Type) (ser : T -> V -> option (list Z)) (deser : T -> list Z -> option V)
+         (enc dec : list Z -> list Z -> list Z -> list Z),
+  (forall k iv x, (length x mod 16 = 0)%nat -> dec k iv (enc k iv x) = x) ->
+  (forall t v b, ser t v = Some b -> deser t b = Some v) ->
+  forall (st0 : wstate T) (h : list (wop V T)) s sh ms iv rows wire,
+  let st := fst (wrun V T ser deser enc dec st0 h) in
+  length iv = 16%nat -> Forall (fun r => length r <= length ms)%nat rows ->
+  bind_rows V T ser enc iv (map (resolve T (stmt_policy T (fst st) (nth s (snd st) 0%nat) sh)) ms) rows = Some wire ->
+  wstep V T ser deser enc dec st (WRound V T s sh ms iv rows) = (st, OutRound V (Some wire) (Some rows)).
+Proof.
+  intros V T ser deser enc dec Haes Hcodec st0 h s sh ms iv rows wire st Hiv Hall Hb.
+  exact (session_round_transparent V T ser deser enc dec Haes Hcodec st s sh ms iv rows wire Hiv Hall Hb).
+Qed.
+Print Assumptions C39_transparent_sessions.
+
+(* registering a column again (key rotation, corrected type) replaces the earlier registration *)
+Theorem C39_reregistration_wins : forall (T : Type) (p : policy T) d k1 t1 k2 t2,
+  pol_find T (add_column T (add_column T p d k1 t1) d k2 t2) d = Some (k2, t2).
+Proof. exact reregistration_wins. Qed.
+Print Assumptions C39_reregistration_wins.
+
+(* a process-wide handler overwritten by every Session.__init__ is NOT transparent: cluster 0 encrypts column (1,1,1),
+   cluster 1 has an empty policy and connects last; a value written through session 0 comes back as iv ++ padded bytes *)
+Theorem C39_shared_handler_refuted :
+  let ops := [WNewCluster (list Z) unit; WNewCluster (list Z) unit; WAdd (list Z) unit 0%nat (1, 1, 1) [7] tt;
+              WConnect (list Z) unit 0%nat; WConnect (list Z) unit 1%nat] in
+  let st := fst (wrun (list Z) unit c39_ser c39_deser id_cipher id_cipher ([], []) ops) in
+  let round := WRound (list Z) unit 0%nat ServerPkIndexes [mkmarker (1, 1, 1) tt] (repeat 9 16) [[Some [5]]] in
+  snd (wstep (list Z) unit c39_ser c39_deser id_cipher id_cipher st round)
+    = OutRound (list Z) (Some [[Some (repeat 9 16 ++ [5] ++ repeat 15 15)]]) (Some [[Some [5]]]) /\
+  snd (wstep_with (list Z) unit c39_ser c39_deser id_cipher id_cipher (handler_policy_shared unit) st round)
+    = OutRound (list Z) (Some [[Some (repeat 9 16 ++ [5] ++ repeat 15 15)]]) (Some [[Some (repeat 9 16 ++ [5] ++ repeat 15 15)]]).
+Proof. vm_compute. split; reflexivity. Qed.
+Print Assumptions C39_shared_handler_refuted.
+
 (* non-null values of encrypted columns go out as iv ++ AES(pad(serialize v)) with the POLICY's type; nulls stay null;
    columns outside the policy go out as their plain serialization *)
 Theorem C39_sent_encrypted : forall (V T : Type) (ser : T -> V -> option (list Z)) (enc : list Z -> list Z -> list Z -> list Z)
